@@ -325,6 +325,21 @@ FIXED = {
     "subproc_wrong_closer": lambda n: "$(a " * n + "]" + ")" * n + "\n",
     "subproc_bang_wrong_closer": lambda n: "![a " * n + ")" + "]" * n + "\n",
     "subproc_inject_wrong_closer": lambda n: "$(ls " + "@$(a " * n + "}" + ")" * n + ")\n",
+    # right-nested and chained expressions in an input that is rejected (in the tail of the chain, or on a later line): the
+    # diagnostic pass walks the chain with the invalid_* alternatives switched on
+    "ifexp_bad_tail": lambda n: "x = " + "a if b else " * n + "c d\n",
+    "ifexp_then_error": lambda n: "x = " + "a if b else " * n + "c\nb c\n",
+    "ifexp_paren_bad_tail": lambda n: "x = " + "(a if " * n + "b" + " else c)" * n + " d\n",
+    "not_bad_tail": lambda n: "x = " + "not " * n + "a b\n",
+    "unary_bad_tail": lambda n: "x = " + "-" * n + "a b\n",
+    "power_bad_tail": lambda n: "x = " + "a ** " * n + "b c\n",
+    "await_bad_tail": lambda n: "await " * n + "a b\n",
+    "lambda_then_error": lambda n: "x = " + "lambda: " * n + "1\nb c\n",
+    "boolop_bad_tail": lambda n: "x = " + "a and " * n + "b c\n",
+    "compare_bad_tail": lambda n: "x = " + "a < " * n + "b c\n",
+    "attr_chain_bad_tail": lambda n: "x = a" + ".b" * n + " c\n",
+    "call_chain_bad_tail": lambda n: "x = a" + "(b)" * n + " c\n",
+    "subscript_chain_bad_tail": lambda n: "x = a" + "[b]" * n + " c\n",
     "chain_trailing_op": lambda n: "x = " + " + ".join(["a"] * n) + " +\n",
     "args_bad_tail": lambda n: "f(" + ",".join(["a"] * n) + " b)\n",
     "stmts_then_error": lambda n: "a = 1\n" * n + "b c\n",
@@ -345,6 +360,7 @@ BREADTH = {
     "dict_items", "list_items", "call_args", "call_kwargs", "binop_chain", "boolop_chain", "compare_chain", "attr_chain", "call_chain", "subscript_chain",
     "statements", "if_blocks", "def_blocks", "for_else_blocks", "with_blocks", "try_blocks", "class_blocks", "while_nested_blocks", "match_blocks", "with_macro_blocks", "semicolons", "string_pieces", "assign_chain", "target_tuple", "lambda_params", "def_params", "type_params", "decorators", "elif", "cases",
     "match_or", "except_clauses", "with_items", "import_names", "global_names", "star_args", "subproc_words", "subproc_glued", "subproc_env", "pipes",
+    "boolop_bad_tail", "compare_bad_tail", "attr_chain_bad_tail", "call_chain_bad_tail", "subscript_chain_bad_tail",
     "macro_args", "fstring_fields", "fstr_spec", "comp_fors", "comp_ifs", "slices_tuple", "help_chain", "and_or_xonsh", "chain_trailing_op", "args_bad_tail", "stmts_then_error", "list_binop_items_bad", "tuple_binop_items_bad", "list_call_items_bad", "list_subscript_items_bad", "elif_then_error", "elif_else_then_error", "cases_then_error", "excepts_then_error", "decorators_then_error", "with_items_then_error",
 }
 
@@ -354,7 +370,7 @@ LONG_RUNS = {"statements", "if_blocks", "def_blocks", "for_else_blocks", "with_b
 
 # bracket nests that stay cheap and well inside the recursion limit: measured much deeper (a quadratic term with a small
 # coefficient only shows at depth)
-DEEP = {"del_paren", "del_bracket", "del_paren_attr", "paren_target", "list_target", "del_nested", "for_target", "with_nested_paren", "match_group", "match_seq", "walrus", "proc_group", "slices", "annot", "match_class", "match_map"}
+DEEP = {"ifexp_nested", "ifexp_bad_tail", "ifexp_then_error", "not_bad_tail", "unary_bad_tail", "power_bad_tail", "await_bad_tail", "lambda_then_error", "del_paren", "del_bracket", "del_paren_attr", "paren_target", "list_target", "del_nested", "for_target", "with_nested_paren", "match_group", "match_seq", "walrus", "proc_group", "slices", "annot", "match_class", "match_map"}
 
 
 def sizes(ctx_thorough: bool, breadth: bool, name: str = ""):
